@@ -2,6 +2,7 @@
     typestate.  Property theorems only. *)
 From Coq Require Import ZArith List Bool String.
 From PV Require Import Model.Base Model.Sched Model.Seq Model.Api Gen.Api.
+From PV Require Proofs.SourceTie.
 From PV Require Import Proofs.Typestate Proofs.ModeInv.
 Import ListNotations.
 Open Scope Z_scope.
@@ -123,3 +124,10 @@ Proof.
   unfold mode, minv in H. rewrite names_sigs in H. exact H.
 Qed.
 Print Assumptions C13_mode_invariant.
+
+(** The whole translation tie of the scheduler (see Proofs/SourceTie.v): every
+    scheduler function of the model this property's theorems rest on is equal to
+    the function regenerated from the current source. *)
+Theorem C13_source_scheduler : SourceTie.scheduler_tied.
+Proof. exact SourceTie.scheduler_source_tie. Qed.
+Print Assumptions C13_source_scheduler.
